@@ -68,12 +68,12 @@ def stratified(cases, n, seed):
 def observe(res, model_sched=None):
     """takeovers observed directly from the probes after each step, and the first mismatch with the prediction."""
     results = res["results"]
-    partial_owner = "dead" if res["start"] == "dead_partial" else None
+    partial_owner = "dead" if res["start"] in ("dead_partial", "dead_partial_meta") else None
     steals_obs = []      # (k, thief, what, owner)
     mismatch = None
     init_lock = {"none": ["absent", "noone"], "dead_lock": ["full", "dead"], "dead_lock_meta": ["full", "dead"],
-                 "dead_partial": ["partial", "dead"], "dead_meta": ["absent", "noone"], "live_serving": ["full", "res"], "live_starting": ["full", "res"]}[res["start"]]
-    init_meta = {"dead_lock_meta": ["meta", "dead"], "dead_meta": ["meta", "dead"], "live_serving": ["meta", "res"]}.get(res["start"], ["absent", "noone"])
+                 "dead_partial": ["partial", "dead"], "dead_meta": ["absent", "noone"], "dead_partial_meta": ["partial", "dead"], "live_serving": ["full", "res"], "live_starting": ["full", "res"]}[res["start"]]
+    init_meta = {"dead_lock_meta": ["meta", "dead"], "dead_meta": ["meta", "dead"], "dead_partial_meta": ["meta", "dead"], "live_serving": ["meta", "res"]}.get(res["start"], ["absent", "noone"])
     prev_lock, prev_meta = init_lock, init_meta
     for st in res["steps"]:
         k = st["k"]
@@ -141,7 +141,7 @@ def judge(v, c, res):
     if not res["all_settled"]:
         v.violation(f"case {c['id']}: a contender never returned from acquire_authority_lock_with_recovery",
                     {"engine": "auth", "case": case_pub, "observed": "hang"})
-    elif n_ok == 0 and not resident and "ok" in m["results"].values() and not res["broken"] and mismatch is None:
+    elif n_ok == 0 and not resident and mismatch != "deadline" and (mismatch is None or "ok" not in m["results"].values()):
         v.violation(f"case {c['id']} (start {res['start']}): no contender obtained the role although the previous authority is gone "
                     f"(model: {m['results']}); results {results}", {"engine": "auth", "case": case_pub, "observed": "unusable"})
     if mismatch == "deadline":
@@ -166,6 +166,9 @@ def run(tier, seed):
     if not r.ok:
         log(r.out[-3000:])
         die_tool("Authority (atomic cleanup) violates its properties: specification error")
+    r = tlc.run("MCAuthority", "Authority_wedge.cfg", workers=6, timeout=900)
+    v.add_tlc(r, "Authority with the pinned commit's corrupt cleanup (gives up whenever meta.json exists): counterexample to Usable expected (fixed, 3036fd1)")
+    v.cov["wedge_counterexample"] = bool(r.violated)
     r = tlc.run("MCAuthority", "Authority_impl.cfg", workers=4, timeout=900)
     v.add_tlc(r, "Authority as implemented (check, then rename whatever is there): counterexample expected (findings D9a-c)")
     v.cov["as_implemented_counterexample"] = bool(r.violated)
@@ -188,11 +191,26 @@ def run(tier, seed):
         procs = sorted(m["results"].keys())
         cases.append({"id": f"a{i}", "start": m["start"], "procs": procs,
                       "sched": [{"a": s["a"], "to": s["to"]} for s in m["sched"]], "_model": m})
+    # ---- Usable, directly: from every leftover state of a dead authority a contender that runs alone (and two that run
+    #      freely) must end up with the role
+    for st in ("none", "dead_lock", "dead_lock_meta", "dead_partial", "dead_meta", "dead_partial_meta"):
+        for procs in (["p1"], ["p1", "p2"]):
+            cases.append({"id": f"solo-{st}-{len(procs)}", "start": st, "procs": procs, "sched": [],
+                          "_model": {"sched": [], "stolen": [], "results": {p: "?" for p in procs}, "atmostone": True, "start": st}, "_solo": True})
     results = run_harness("auth", [{k: c[k] for k in c if not k.startswith("_")} for c in cases], wd, "auth", shards=14, timeout=3000)
     by_id = {c["id"]: c for c in cases}
     conform = 0
     for res in results:
         c = by_id[res["id"]]
+        if c.get("_solo"):
+            n_ok = len([p for p, r_ in res["results"].items() if r_ and r_.get("ok")])
+            v.add_eval({"solo": c["id"]}, True)
+            if n_ok != 1:
+                v.violation(f"start {res['start']}, {len(c['procs'])} contender(s) running freely: {n_ok} obtained the authority role "
+                            f"({'the store of a dead authority is not usable again' if n_ok == 0 else 'two authorities'}); results "
+                            f"{ {p: (r_.get('ok'), str(r_.get('err'))[:80]) for p, r_ in res['results'].items()} }",
+                            {"engine": "auth", "case": {k: c[k] for k in c if not k.startswith("_")}, "observed": "unusable" if n_ok == 0 else "two_authorities"})
+            continue
         ok = judge(v, c, res)
         conform += 1 if ok else 0
         v.add_eval({"start": res["start"], "sched": c["sched"]}, len(c["sched"]) >= 4)
